@@ -234,14 +234,19 @@ def fmtScalar : NVal → List UInt8
   | .char v => [UInt8.ofNat v.toNat]
 
 /-! ### collection at safe points (`gc_run`) -/
-def gcRun : M Unit := do
-  let vm ← get
-  if vm.gcMode == 2 then pure () else
+/-- `gc_run(collector, stack, sp + 1, gp)` under the configured schedule, as a pure function of the machine -/
+def gcRunPure (vm : Vm) : Except Stop Vm :=
+  if vm.gcMode == 2 then .ok vm else
   let st := (vm.stack.extract 0 (vm.sp + 1).toNat).toList
   let r := if vm.gcMode == 1 then vm.gc.collect st vm.gp else vm.gc.run st vm.gp
   match r with
-  | some g => set { vm with gc := g }
-  | none => crash "collector reads a foreign or wrongly typed object"
+  | some g => .ok { vm with gc := g }
+  | none => .error (.crash "collector reads a foreign or wrongly typed object")
+
+def gcRun : M Unit := do
+  match gcRunPure (← get) with
+  | .ok vm' => set vm'
+  | .error e => throw e
 
 /-! ### opcode families -/
 def binOpOf : Opc → Option (NTy × BinOp)
@@ -1085,8 +1090,8 @@ def exec (md : Module) (ins : Instr) (orc : Oracle) : M Unit := do
   | .PUSH_EXCEPT => do pushAddr (← alloc (.int (BitVec.ofNat 32 (← get).exception)))
   | .UNHANDLED_EXCEPTION => do
     let name := match (← get).exception with
-      | 1 => "division" | 2 => "arr_size" | 3 => "index_oob" | 4 => "invalid" | 5 => "overflow"
-      | 6 => "underflow" | 7 => "inexact" | 8 => "nil_pointer" | 9 => "ffi_fail" | _ => "unknown"
+      | 1 => "division_by_zero" | 2 => "wrong_array_size" | 3 => "index_out_of_bounds" | 4 => "invalid_domain" | 5 => "overflow"
+      | 6 => "underflow" | 7 => "inexact" | 8 => "nil_pointer" | 9 => "ffi_fail" | _ => "unknown_exception"
     emit (bytesOf s!"unhandled {name} exception\n")
     modify fun vm => { vm with running := 3 }
   | .HALT => modify fun vm => { vm with running := 0 }
